@@ -41,6 +41,7 @@ type c09Case struct {
 	EOF      []bool `json:"eof"`      // true: clean end of stream, false: reset
 	Existing bool   `json:"existing"` // a complete file of that name already exists
 	Huge     uint32 `json:"huge,omitempty"` // the data fork header announces this many bytes (2 GiB and more); the connection dies after a few
+	Spoof    string `json:"spoof,omitempty"` // first another upload is attempted under this spelling of the partial file's name
 	NoResume bool   `json:"noresume"` // ask to resume although nothing was uploaded
 	OwnRoot  bool   `json:"ownroot"`  // the uploading account has its own file root; the server-wide root holds a same-named decoy partial
 	Twice    bool   `json:"twice"`    // two upload requests for the name are granted while it is free; the second transfer starts after the first has published
@@ -242,6 +243,19 @@ func c09Run(w *explore.Worker, c c09Case) {
 			return
 		}
 
+		if c.Spoof != "" {
+			// an upload under a spelling of "<name>.incomplete": refused, or at least not taken for partial data of <name>
+			fs := []ref.Fld{ref.FS(ref.FFileName, c.Spoof), ref.F(ref.FFilePath, ref.PathBytes("Uploads")), ref.F32(ref.FTransferSize, 400)}
+			id := u.Req(ref.TUploadFile, fs...)
+			world.Quiet()
+			if rep := u.Reply(id); rep != nil && rep.Err == 0 {
+				if rn, ok := rep.Get(ref.FRefNum); ok {
+					sp := wd.DialTransfer("10.0.0.1:2900")
+					sp.Feed(append(ref.Preamble(rn, 0), ref.FlatFile(info, bytes.Repeat([]byte("A"), 300), nil)...))
+					world.Settle(10 * time.Second)
+				}
+			}
+		}
 		attempts := append(append([]int(nil), c.Cuts...), -1) // -1 = uncut
 		for ai, cut := range attempts {
 			// the reference client asks to resume after every cut; when the server holds nothing of the file it may
@@ -430,6 +444,9 @@ func c09Cases(thorough bool) []c09Case {
 			}
 		}
 		cs = append(cs, c09Case{Size: sz, Huge: 0x80000000}, c09Case{Size: sz, Huge: 0xfffffff0})
+		for _, sp := range []string{"up.bin.incomplete", "up.bin.incomplete/.", "x/../up.bin.incomplete", "up.bin.incomplete/"} {
+			cs = append(cs, c09Case{Size: sz, Spoof: sp})
+		}
 		cs = append(cs, c09Case{Size: sz, Existing: true}, c09Case{Size: sz, NoResume: true}, c09Case{Size: sz, Twice: true}, c09Case{Size: sz, Twice: true, Rsrc: true, Preserve: true})
 	}
 	return cs
